@@ -178,9 +178,13 @@ func init() {
 				// sidecar, so failures of different kinds follow each other without a success in between)
 				if failing {
 					want := map[string]string{"status-404": "404", "status-500": "500", "status-204": "204", "transport-error": "connection refused (scripted)",
-						"stop-scrape": "quota exceeded", "bad-gzip-header": "gzip"}[cs.Kind]
+						"stop-scrape": "quota 95% full, exceeded", "bad-gzip-header": "gzip"}[cs.Kind]
 					if want != "" && !strings.Contains(st.LastError, want) {
-						r.Violate("C13:stale-error:"+cs.Kind, "truthful-health", fmt.Sprintf("%+v: the recorded error is %q, this scrape failed with %q", cs, st.LastError, want), idx, rp("truthful-health", ""))
+						sig := "C13:stale-error:" + cs.Kind
+						if strings.Contains(st.LastError, "%!") {
+							sig = "C13:error-mangled:" + cs.Kind // the reason went through a format string
+						}
+						r.Violate(sig, "truthful-health", fmt.Sprintf("%+v: the recorded error is %q, this scrape failed with %q", cs, st.LastError, want), idx, rp("truthful-health", ""))
 					}
 				}
 				if !failing && (string(st.Health) != "up" || st.LastError != "") {
@@ -226,7 +230,7 @@ func init() {
 			})
 			// stop-scrape reason set: every scrape is a failure
 			one(c13Case{Kind: "stop-scrape", Assigned: assigned}, true, nil, func() {
-				_ = sc.CM.UpdateExtraConfig(prom.ExtraConfig{StopScrapeReason: "quota exceeded"})
+				_ = sc.CM.UpdateExtraConfig(prom.ExtraConfig{StopScrapeReason: "quota 95% full, exceeded"})
 				serve = func(req *http.Request) rig.Answer { return rig.Answer{Body: small} }
 			})
 			_ = sc.CM.UpdateExtraConfig(prom.ExtraConfig{})
@@ -296,8 +300,8 @@ func init() {
 							return rig.Answer{Err: errors.New("connection refused (scripted)")}
 						}
 					}},
-					{"stop-scrape", "quota exceeded", func() {
-						_ = sc.CM.UpdateExtraConfig(prom.ExtraConfig{StopScrapeReason: "quota exceeded"})
+					{"stop-scrape", "quota 95% full, exceeded", func() {
+						_ = sc.CM.UpdateExtraConfig(prom.ExtraConfig{StopScrapeReason: "quota 95% full, exceeded"})
 						serve = func(req *http.Request) rig.Answer { return rig.Answer{Body: small} }
 					}},
 				}
@@ -327,7 +331,11 @@ func init() {
 								r.Transitions++
 								st := sc.TM.TargetsInfo().Status[1]
 								if string(st.Health) != "down" || !strings.Contains(st.LastError, k.want) {
-									r.Violate("C13:stale-error:consecutive-failures", "truthful-health", fmt.Sprintf("after a success and the failures %v: health %q, recorded error %q, the last scrape failed with %q", names, st.Health, st.LastError, k.want), idx,
+									sig := "C13:stale-error:consecutive-failures"
+									if strings.Contains(st.LastError, "%!") {
+										sig = "C13:error-mangled:" + k.name
+									}
+									r.Violate(sig, "truthful-health", fmt.Sprintf("after a success and the failures %v: health %q, recorded error %q, the last scrape failed with %q", names, st.Health, st.LastError, k.want), idx,
 										&c13Replay{Property: "C13", Clause: "truthful-health", Case: c13Case{Kind: strings.Join(names, ","), Assigned: true}, Detail: st.LastError})
 									break
 								}
